@@ -51,7 +51,9 @@ var allActions = []string{"get", "info", "put", "activate", "delete"}
 // mixedCallers: a super user plus callers with diverse rule sets
 func mixedCallers(r *rand.Rand) []DBCaller {
 	cs := []DBCaller{{ID: 1, Rules: superRules()}}
-	pats := [][]byte{[]byte("*"), []byte("a"), []byte("b"), []byte("a/*"), []byte("a*"), []byte("*/q"), []byte("zzz"), []byte("_internal/*"), []byte("")}
+	// incl. near misses: "a*a" must not match "a", "a/*/b" must not match "a/b" (the literal pieces may not overlap)
+	pats := [][]byte{[]byte("*"), []byte("a"), []byte("b"), []byte("a/*"), []byte("a*"), []byte("*/q"), []byte("zzz"), []byte("_internal/*"), []byte(""),
+		[]byte("a*a"), []byte("a/*/b"), []byte("a*b"), []byte("*b*b")}
 	n := 2 + r.IntN(3)
 	for i := 0; i < n; i++ {
 		var rules []c07Rule
@@ -72,7 +74,16 @@ func mixedCallers(r *rand.Rand) []DBCaller {
 				rules = append(rules, c07Rule{Actions: randSubset(r, allActions), Secrets: secs})
 			}
 		}
-		cs = append(cs, DBCaller{ID: i + 2, Rules: rules})
+		// identities: usually distinct users; sometimes the SAME user as an earlier caller but with other
+		// rules (one login on two nodes, or grants that changed), sometimes a tagged node (empty user name)
+		id := i + 2
+		switch x := r.IntN(8); {
+		case x < 2 && len(cs) > 1:
+			id = cs[1+r.IntN(len(cs)-1)].ID
+		case x < 4:
+			id = 1000 + i
+		}
+		cs = append(cs, DBCaller{ID: id, Rules: rules})
 	}
 	return cs
 }
@@ -221,6 +232,13 @@ func runDBHistory(work string, idx int, p *dbProfile, in DBInput, r *rand.Rand, 
 				st, forced = forced[0], forced[1:]
 			} else {
 				st = genStep(r, p, in.Callers, last, deleted)
+				// reads by different callers back to back, with no write in between (same name, other caller)
+				if n := len(in.Ops); n > 0 && len(in.Callers) > 1 && r.IntN(4) == 0 {
+					if k := in.Ops[n-1].Kind; k == "list" || k == "info" || k == "get" || k == "getver" {
+						st = in.Ops[n-1]
+						st.Caller = r.IntN(len(in.Callers))
+					}
+				}
 			}
 			in.Ops = append(in.Ops, st)
 			step(st)
